@@ -171,6 +171,18 @@ def oracle(ctx, kind, p):
                 return
             if any(rm.dereifiable(t) for s_, r_, t in g.triples if r_ == ':instance'):
                 ctx.count('lookalike_relation_nodes')
+        if p['i'] % 3 == 1:
+            # alignments added afterwards the way docs/library.rst shows (appended to the triple's marker
+            # list, hence *after* the layout markers): the same graph, the same text
+            from penman.surface import AlignmentMarker
+            moved = 0
+            for t_, ms in g.epidata.items():
+                alns = [m_ for m_ in ms if isinstance(m_, AlignmentMarker)]
+                if alns and len(alns) < len(ms) and rng.random() < 0.7:
+                    ms[:] = [m_ for m_ in ms if not isinstance(m_, AlignmentMarker)] + alns
+                    moved += 1
+            if moved:
+                ctx.count('alignments_after_layout_markers')
         nre = check_graph(ctx, g, mname, node)
         ctx.case(ctx.current, bool(nre))
         ctx.count('model:' + ('rand' if mname.startswith('rand') else mname))
